@@ -123,6 +123,9 @@ structure ScanSt where
   startTime : Nat := 0
   /-- `orders_since_last_valid` -/
   osv : Nat := 0
+  /-- `end_marker_ord`: the order of the `0xff` end marker that sends the next `++ord` past the end
+  (`none` = -1); consumed and cleared by the wrap -/
+  endMark : Option Nat := none
   anyValid : Bool := false
   /-- `m->scan_cnt[ord][row]` -/
   cnt : List (List Nat)
@@ -204,9 +207,15 @@ def scanRows (ord : Nat) : List Fx → Nat → ScanSt → RowsOut
       | .jump j => .done st3 (some j)
       | _ => scanRows ord rest (row + 1) st3
 
-/-- restart target when `++ord >= len` (scan.c:160-169) -/
-def restartOrd (m : LinMod) (ep chain : Nat) (ctl : List Nat) : Nat :=
-  if m.rst > m.len ∨ m.patOf m.rst ≥ m.npat then ep
+/-- `end_marker_ord >= 0 && end_marker_ord < ep` -/
+def belowEp (ep : Nat) : Option Nat → Bool
+  | some x => decide (x < ep)
+  | none => false
+
+/-- restart target when `++ord >= len`: the same rule as `next_order` — an end marker met below the entry
+point restarts at the entry point, not at the restart position (scan.c, since 4bf9f85) -/
+def restartOrd (m : LinMod) (ep chain : Nat) (ctl : List Nat) (endMark : Option Nat) : Nat :=
+  if m.rst > m.len ∨ m.patOf m.rst ≥ m.npat ∨ belowEp ep endMark = true then ep
   else if ctl.getD m.rst 0xff = chain then m.rst else ep
 
 /-- `xxo_info[ord]` update at pattern entry (scan.c:235-253) -/
@@ -229,19 +238,21 @@ def scanOrders (m : LinMod) (ep chain : Nat) : Nat → Nat → ScanSt → Outcom
   | 0, _, _ => .noFuel
   | fuel + 1, nord, st0 =>
     if st0.osv > 512 then .finished st0 (nord - 1) 0 else
-    let st := { st0 with osv := st0.osv + 1 }
+    let st := { st0 with osv := st0.osv + 1, endMark := if nord ≥ m.len then none else st0.endMark }
     let wrapped := decide (nord ≥ m.len)
-    let ord := if wrapped then restartOrd m ep chain st.ctl else nord
+    let ord := if wrapped then restartOrd m ep chain st.ctl st0.endMark else nord
     let pat := m.patOf ord
     let isEnd := m.marker && pat == 0xff
     if wrapped && isEnd then .finished st ord 0 else
     let skipTo : Nat := if isEnd then m.len + 1 else ord + 1
     if ep ≠ 0 ∧ st.ctl.getD ord 0xff ≠ 0xff then
-      if pat ≥ m.npat then scanOrders m ep chain fuel skipTo st
+      if pat ≥ m.npat then
+        scanOrders m ep chain fuel skipTo { st with endMark := if isEnd then some ord else st.endMark }
       else .finished st ord 0
     else
       let st := { st with ctl := st.ctl.set ord chain }
-      if pat ≥ m.npat then scanOrders m ep chain fuel skipTo st
+      if pat ≥ m.npat then
+        scanOrders m ep chain fuel skipTo { st with endMark := if isEnd then some ord else st.endMark }
       else if cntAt st.cnt ord 0 ≠ 0 then .finished st ord 0
       else
         let st := recordInfo ep ord st
@@ -530,12 +541,11 @@ def Fx.wfb : Fx → Bool
 /-- the module class: patterns of 1..256 rows (so that the 512-row runaway guard of the scan never fires)
 with in-vocabulary parameters, initial speed ≥ 1 and tempo ≥ 20,
 at most 256 orders, restart position inside the order list; in marker formats pattern numbers
-0xfe / 0xff are never real patterns and an end marker in the order list excludes a restart position -/
+0xfe / 0xff are never real patterns -/
 def modWFb (m : LinMod) : Bool :=
   m.pats.all (fun p => !p.isEmpty && decide (p.length ≤ 256) && p.all Fx.wfb) && decide (1 ≤ m.spd) && decide (20 ≤ m.bpm) &&
   decide (m.len ≤ 256) && decide (m.rst < m.len) &&
-  (!m.marker || (decide (m.npat ≤ 254) &&
-    (decide (m.rst = 0) || (List.range m.len).all (fun o => m.patOf o != 0xff))))
+  (!m.marker || decide (m.npat ≤ 254))
 
 /-- the first order from `o` on that holds a pattern, if only skipped orders (no pattern, not an end
 marker) lie before it -/
@@ -549,8 +559,7 @@ def firstPlay (m : LinMod) : Nat → Nat → Option Nat
 
 /-- The hypotheses of the simulation theorem for `scan_module(ep, chain)` started from `ctl0` / `info0`
 and the player environment `e` (module `e.m`): module class; the entry point leads to a playable
-order; the orders below a secondary entry point are taken; order 0 does not carry the chain number of
-a secondary sequence; the scan is accepted; `e` reads this scan's end point / visit count, agrees with it on
+order; the orders below a secondary entry point are taken; the scan is accepted; `e` reads this scan's end point / visit count, agrees with it on
 `sequence_control[rst]` and finds the module's initial speed / tempo at the first order. -/
 def seqHypB (e : PlayEnv) (ep chain : Nat) (ctl0 : List Nat) (info0 : List OrdInfo) : Bool :=
   let m := e.m
@@ -560,7 +569,6 @@ def seqHypB (e : PlayEnv) (ep chain : Nat) (ctl0 : List Nat) (info0 : List OrdIn
     let r := scanModule m ep chain ctl0 info0
     modWFb m && decide (ep < m.len) &&
     (decide (ep = 0) || (List.range ep).all (fun o => ctl0.getD o 0xff != 0xff)) &&
-    (decide (ep = 0) || !(decide (0 < m.len ∧ m.patOf 0 < m.npat)) || ctl0.getD 0 0xff != chain) &&
     decide (chain < 255) && decide (m.len ≤ ctl0.length) && decide (0 ≤ r.ret) &&
     decide (e.si.seq = chain) && decide (e.si.ep = ep) && decide (e.si.endOrd = r.endOrd) &&
     decide (e.si.endRow = r.endRow) && decide (e.si.num = r.num) &&
